@@ -44,6 +44,10 @@ DecFails(e) ==
        ELSE IF right /\ e.val # exp THEN <<"C06.decode">>
        ELSE <<>>)
    \o (IF ~right /\ e.err = "" THEN <<"C06.length">> ELSE <<>>)
+   \* the same bytes decoded into a long-lived payload value that held other commands before
+   \o (IF right /\ e.err = "" /\ Has(e, "serr") /\ (e.serr # "" \/ ~Has(e, "sval")) THEN <<"C06.decode">>
+       ELSE IF right /\ e.err = "" /\ Has(e, "serr") /\ e.sval # exp THEN <<"C06.decode">>
+       ELSE <<>>)
 
 QuantCmds(e) == [i \in 1..Len(e.cmds) |->
                    IF e.dir = "down" /\ e.cmds[i].cid = 13 /\ ~Has(e.cmds[i], "raw") /\ e.cmds[i].p # <<>>
